@@ -6,8 +6,7 @@
    computed by GetAttr (__name__, __module__, spawn, methods).
 
    [apply_config] mirrors risor_config.go: init = applyDefaultGlobals; applyDenylist; applyOverrides,
-   with removeModuleAttr / resolveModule as they are written (resolveModule looks every path element up
-   in the ROOT module, not in the module found so far).
+   with removeModuleAttr / resolveModule as they are written (resolveModule walks nested modules one by one).
    Definitions only; proofs are in proofs/GlobalsProofs.v. *)
 From Coq Require Import List Bool String Ascii PArith.
 Require Import RV.model.Graph.
@@ -64,19 +63,32 @@ Fixpoint cut_dot (s : string) : string * option string :=
       else let (a, b) := cut_dot r in (String c a, b)
   end.
 
-(* ---- resolveModule(m, path): every element is looked up in m itself (as in the source) *)
-Fixpoint resolve_loop (h : heap) (mods : list node) (m : node) (path : list string) (result : option node)
+(* ---- resolveModule(m, path): walk the path module by module; every element is looked up in the module found
+   so far and must itself be a module (risor_config.go after the repair e1edc7f) *)
+Fixpoint resolve_module (h : heap) (mods : list node) (m : node) (path : list string) : option node :=
+  match path with
+  | [] => Some m
+  | name :: rest =>
+      match get_attr h m name with
+      | Some o => if is_module mods o then resolve_module h mods o rest else None
+      | None => None
+      end
+  end.
+
+(* The rule BEFORE the repair, kept for the regression example only: every element was looked up in the ROOT
+   module m, and the last one found was returned. *)
+Fixpoint resolve_loop_old (h : heap) (mods : list node) (m : node) (path : list string) (result : option node)
   : option node :=
   match path with
   | [] => result
   | name :: rest =>
       match get_attr h m name with
-      | Some o => if is_module mods o then resolve_loop h mods m rest (Some o) else None
+      | Some o => if is_module mods o then resolve_loop_old h mods m rest (Some o) else None
       | None => None
       end
   end.
-Definition resolve_module (h : heap) (mods : list node) (m : node) (path : list string) : option node :=
-  match path with [] => Some m | _ => resolve_loop h mods m path None end.
+Definition resolve_module_old (h : heap) (mods : list node) (m : node) (path : list string) : option node :=
+  match path with [] => Some m | _ => resolve_loop_old h mods m path None end.
 
 (* ---- removeModuleAttr(m, attr) *)
 Definition remove_module_attr (h : heap) (mods : list node) (m : node) (attr : string) : heap :=
@@ -182,6 +194,14 @@ Definition names (w : world) : list string :=
   flat_map (fun p => if is_module (w_mods w) (snd p)
                      then map (fun a => fst p ++ "." ++ a) (members_of (w_heap w) (snd p))
                      else []) (w_env w).
+
+(* ---- a dotted name from its components: strings.Join(parts, ".") *)
+Fixpoint dotted (parts : list string) : string :=
+  match parts with
+  | [] => ""
+  | [x] => x
+  | x :: r => x ++ String "." (dotted r)
+  end.
 
 (* ---- well-formedness: GetAttr is a function, global names are unique, names carry no dot *)
 Fixpoint has_dot (s : string) : bool :=
